@@ -1,5 +1,5 @@
 (* C27: subscribers receive only authentic messages for their channel. *)
-From Bifrost Require Import Lib.Base gen.Pubsub Pubsub.Model Pubsub.Proofs27.
+From Bifrost Require Import Lib.Base gen.Pubsub Pubsub.Model Pubsub.Proofs27 Pubsub.Sub Pubsub.Proofs27Churn.
 
 (* the signing context binds the channel: prefix ++ channel is injective *)
 Theorem c27_context_binds_channel : forall a b, pub_ctx a = pub_ctx b -> a = b.
@@ -91,6 +91,25 @@ Theorem c27_drop_unsubscribed : forall st prev m k d ch,
   step st (RecvPublish prev m) = (st, []).
 Proof. exact c27_unsubscribed. Qed.
 Print Assumptions c27_drop_unsubscribed.
+
+(* subscribe-release churn.  The subscribed check of handlePublish is the key of
+   m.channels; the loop body of Execute (model Pubsub/Sub.v) deletes EVERY key
+   without subscription, announced or not: after a loop body every key of
+   m.channels has a subscription ... *)
+Theorem c27_pass_leaves_no_empty_key : forall s ch n,
+  l_phase s = PArmed -> In (ch, n) (l_ch (lstep s LPass)) -> n <> 0%nat.
+Proof. exact pass_leaves_no_empty_key. Qed.
+Print Assumptions c27_pass_leaves_no_empty_key.
+
+(* ... so a channel that was subscribed and released (LocalSubscribe, then the
+   LocalSweep of the next loop body) is unsubscribed for the receiving node: an
+   authentic publish for it is neither delivered nor forwarded, whoever announced it *)
+Theorem c27_drop_after_churn : forall st ch h prev m k d,
+  authentic m k d ch ->
+  let st1 := fst (step (fst (step st (LocalSubscribe ch h))) (LocalSweep ch)) in
+  step st1 (RecvPublish prev m) = (st1, []).
+Proof. exact churn_then_publish_dropped. Qed.
+Print Assumptions c27_drop_after_churn.
 
 (* non-vacuity: an honest fresh message for a subscribed channel IS delivered to
    the handlers, and a replay of it is dropped *)
